@@ -102,8 +102,19 @@ def _script(tx, d, o, xwei_now=None):
         return ["OSuicide 3 4"]
     if mode == 5:
         return ["OSuicide 3 3"]
+    pto = {"": 4, "B": 4, "S": 0, "X": 3, "R": 2}[tx.get("pto") or ""]
     if mode == 7:
-        return ["OTransfer 3 4 %s" % _z(w * K)] if 0 < w <= before[3] + vn else []
+        return ["OTransfer 3 %d %s" % (pto, _z(w * K))] if 0 < w <= before[3] + vn else []
+    if mode == 9:
+        ops, xw = [], xwei
+        if 0 < w <= xw:
+            ops.append("OTransfer 3 %d %s" % (pto, _z(w)))
+            if pto != 3:
+                xw -= w
+        pamt = int(tx.get("pamt") or 0)
+        if 0 < pamt * K <= xw:
+            ops.append("OTransfer 3 %d %s" % (pto, _z(pamt * K)))
+        return ops
     return None
 
 
@@ -216,6 +227,8 @@ def classify(rec):
         ks.append("type=%d" % tx["ty"])
         ks.append("gas=" + tx["gasmode"])
         ks.append("target=" + tx["target"] + ("/mode%d" % tx["mode"] if tx["target"] in ("x", "create") else ""))
+        if tx["target"] == "x" and tx["mode"] in (7, 8, 9):
+            ks.append("in-evm-bank-send-to=" + (tx.get("pto") or "B") + ("/after-CALL-to-it" if tx["mode"] == 9 else ""))
         if tx["target"] == "w":
             ks.append("w:wasm-execute/funds=%s%s" % ("0" if int(tx.get("wamt") or 0) == 0 else "unibi", "/bad-msg" if tx.get("wbad") else ""))
         if tx["target"] == "f":
